@@ -16,7 +16,7 @@ PROPERTY = 'C05'
 RULE = (
     'the unmodified Reactor/Peer on a virtual clock; schedule (<= 25 steps) over {outgoing connect succeeds / fails, incoming connection, remote sends valid OPEN / KEEPALIVE / UPDATE / '
     'EOR / ROUTE-REFRESH / NOTIFICATION, any fault class (header, OPEN, UPDATE, refresh), EOF, RST, half-close, virtual delay up to 2 x hold, API teardown, reload, full handshake} '
-    'x passive on/off x hold time. Oracle = history invariants over FSM.change calls, bytes written per transport labelled with the FSM state, transport closure and API state events. '
+    'x passive on/off x hold time; a second engine drives the real Listener with a neighbor defined as an address range (dynamic peers): connections from one or two remote addresses, second connections from an address whose session is up. Oracle = history invariants over FSM.change calls, bytes written per transport labelled with the FSM state, transport closure and API state events. '
     'Non-trivial = the schedule reached OPENSENT or beyond and contains a fault or a second connection'
 )
 ASSUMPTIONS = [
@@ -223,3 +223,136 @@ def check(case: dict) -> dict:
 
 
 ENGINES = [Engine('schedules', cases, check, quick=300, thorough=4000, batch=100)]
+
+
+# ---------------------------------------------------------------------------- dynamic peers: a neighbor defined as an address range
+
+
+RANGE_ADDRS = ['127.0.5.7', '127.0.5.9']
+
+
+def range_config(hold: int) -> str:
+    return (
+        nh.process_section()
+        + 'neighbor 127.0.5.0/24 {\n  router-id 10.0.0.5;\n  local-address 127.0.0.1;\n  local-as 65000;\n  peer-as 65001;\n'
+        + f'  hold-time {hold};\n  passive true;\n  capability {{\n    asn4 enable;\n    route-refresh enable;\n  }}\n  family {{\n    ipv4 unicast;\n  }}\n'
+        + nh.api_section(changes=True)
+        + '\n  static {\n    route 30.0.0.0/24 next-hop 1.2.3.4;\n  }\n}\n'
+    )
+
+
+@st.composite
+def range_cases(draw):
+    ops = [['connect', 0], ['handshake', 0]]
+    n = 1
+    for _ in range(draw(st.integers(1, 8))):
+        kind = draw(st.sampled_from(['connect', 'connect', 'handshake', 'open', 'wait', 'wait', 'close', 'ka']))
+        if kind == 'connect':
+            ops.append(['connect', draw(st.sampled_from([0, 0, 1]))])
+            n += 1
+        elif kind == 'wait':
+            ops.append(['wait', draw(st.sampled_from([0.0, 0.1, 1.0, 3.0]))])
+        else:
+            ops.append([kind, draw(st.integers(0, n - 1))])
+    return {'kind': 'range', 'hold': draw(st.sampled_from([30, 9])), 'settle': draw(st.sampled_from([0.0, 0.0, 1.5])), 'ops': ops}
+
+
+def check_range(case: dict) -> dict:
+    out: dict = {}
+
+    async def main(loop):
+        with nh.Harness(loop, config_text=range_config(case['hold']), env={'bgp.openwait': 8, 'bgp.passive': True}) as hn:
+            if not hn.reload_ok:
+                raise RuntimeError(f'configuration refused: {hn.reactor.configuration.error}')
+            hn.start()
+            await hn.sleep(0.2)
+            conns: list = []
+            for o in case['ops']:
+                if o[0] == 'connect':
+                    conns.append((RANGE_ADDRS[o[1]], hn.connect_from(RANGE_ADDRS[o[1]])))
+                    await hn.sleep(0.3)
+                elif o[0] == 'wait':
+                    await hn.sleep(o[1])
+                else:
+                    addr, r = conns[o[1]]
+                    if r.closed_at is not None or r.local_closed_at is not None:
+                        continue
+                    if o[0] == 'handshake':
+                        await nh.establish(r, sc.open_body('valid'), timeout=3.0)
+                        await hn.sleep(case['settle'])
+                    elif o[0] == 'open':
+                        await r.send_msg(codec.OPEN, sc.open_body('valid'))
+                        await hn.sleep(0.3)
+                    elif o[0] == 'ka':
+                        await r.send_msg(codec.KEEPALIVE)
+                        await hn.sleep(0.1)
+                    elif o[0] == 'close':
+                        r.close()
+                        await hn.sleep(0.5)
+            await hn.sleep(1.5)
+            hn.api_read()
+            out['fsm'] = list(hn.fsm_log)
+            out['api'] = list(hn.api_lines)
+            out['end'] = loop.time()
+            out['conns'] = [
+                {'addr': addr, 'messages': [(t, ty) for t, ty, _ in r.messages], 'closed_at': r.closed_at if r.closed_at is not None else r.local_closed_at, 'sent': [(t, d) for t, d in r.sent]}
+                for addr, r in conns
+            ]
+
+    try:
+        vloop.run(main)
+    except vloop.Deadlock as exc:
+        raise Violation('reactor:stalls', str(exc)) from None
+
+    for t, key, frm, to, conn in out['fsm']:
+        if to not in ALLOWED[frm]:
+            raise Violation(f'transition:{frm}->{to}', f'dynamic peer {key} at {t:.2f}s')
+    # a session is live on a transport from the moment exabgp wrote an UPDATE or a second KEEPALIVE there (it is in
+    # ESTABLISHED) until the transport closes: one remote address never has two such sessions at once (RFC 4271 6.8)
+    live = []
+    for c in out['conns']:
+        kas = [t for t, ty in c['messages'] if ty == 4]
+        upd = [t for t, ty in c['messages'] if ty == 2]
+        start = min(upd + kas[1:]) if (upd or len(kas) > 1) else None
+        if start is not None:
+            live.append((c['addr'], start, c['closed_at'] if c['closed_at'] is not None else out['end'] + 1))
+    for i, (a, s1, e1) in enumerate(live):
+        for b, s2, e2 in live[i + 1 :]:
+            if a == b and max(s1, s2) < min(e1, e2) - 0.5:
+                raise Violation('dynamic:two-established-sessions-for-one-address', f'{a}: sessions live over [{s1:.2f},{e1:.2f}] and [{s2:.2f},{e2:.2f}]; ops {case["ops"]}')
+    # API: for every remote address an up is followed by a down before the next up
+    up: dict = {}
+    for t, line in out['api']:
+        try:
+            doc = json.loads(line)
+        except ValueError:
+            continue
+        if doc.get('type') == 'state':
+            addr = doc['neighbor']['address']['peer']
+            state = doc['neighbor'].get('state')
+            if state == 'up':
+                if up.get(addr):
+                    raise Violation('api:up-twice-without-down', f'{addr}; ops {case["ops"]}')
+                up[addr] = True
+            elif state == 'down':
+                up[addr] = False
+    n_live = len(live)
+    second = any(a == b for i, (a, _, _) in enumerate(live) for b, _, _ in live[i + 1 :]) or sum(1 for c in out['conns'] if c['addr'] == RANGE_ADDRS[0]) >= 2
+    classes = ['dynamic-peer', f'sessions-established:{min(n_live, 3)}']
+    if second:
+        classes.append('second-connection-from-the-same-address')
+    if len({c['addr'] for c in out['conns']}) >= 2:
+        classes.append('two-remote-addresses')
+    return {'nontrivial': n_live >= 1 and second, 'classes': classes}
+
+
+def range_fixed() -> list:
+    return [
+        {'kind': 'range', 'hold': 30, 'settle': 1.5, 'ops': [['connect', 0], ['handshake', 0], ['wait', 1.0], ['connect', 0], ['handshake', 1]]},
+        {'kind': 'range', 'hold': 30, 'settle': 1.5, 'ops': [['connect', 0], ['handshake', 0], ['wait', 1.0], ['connect', 0], ['open', 1], ['wait', 3.0]]},
+        {'kind': 'range', 'hold': 30, 'settle': 0.0, 'ops': [['connect', 0], ['handshake', 0], ['connect', 1], ['handshake', 1], ['connect', 0], ['handshake', 2]]},
+        {'kind': 'range', 'hold': 9, 'settle': 1.5, 'ops': [['connect', 0], ['handshake', 0], ['close', 0], ['connect', 0], ['handshake', 1]]},
+    ]
+
+
+ENGINES.append(Engine('dynamic-peers', range_cases, check_range, quick=60, thorough=1500, batch=60, fixed_cases=range_fixed))
